@@ -296,15 +296,12 @@ def switch_region(fn, sw, start_block):
         els = [e for e in (blk.get("el") or []) if isinstance(e, int)]
         inside = any(e in ids for e in els) or (blk.get("label") in ids)
         if els and not inside:
-            continue
-        if not els and blk.get("label") is None and b != start_block:
-            pass                                            # empty join block: transparent
-        if inside or not els:
-            if inside:
-                res.add(b)
-            for s in _raw_succ(cfg, b):
-                if s is not None:
-                    stack.append(s)
+            continue                                        # first statement after the switch
+        if inside:
+            res.add(b)
+        for s in _raw_succ(cfg, b):                         # (an empty join block is transparent)
+            if s is not None:
+                stack.append(s)
     return res
 
 
@@ -441,7 +438,7 @@ def _alias_vars(fn, seed_nodes):
     keys = set()
     for s in seed_nodes:
         for x in walk(s):
-            if x.get("k") == "DeclRefExpr" and x["ref"].get("dk") in ("local", "parm", "global", "staticmember"):
+            if x.get("k") == "DeclRefExpr" and x["ref"].get("dk") in ("local", "staticlocal", "parm", "global", "staticmember"):
                 keys.add(_subject_key(x))
     decls = []
     for n in fn.walk():
@@ -449,7 +446,7 @@ def _alias_vars(fn, seed_nodes):
             for d in n.get("decls", []):
                 if d.get("init") is not None and d.get("decl") is not None:
                     refs = {_subject_key(x) for x in walk(d["init"])
-                            if x.get("k") == "DeclRefExpr" and x["ref"].get("dk") in ("local", "parm", "global", "staticmember")}
+                            if x.get("k") == "DeclRefExpr" and x["ref"].get("dk") in ("local", "staticlocal", "parm", "global", "staticmember")}
                     decls.append((("v", d["decl"]), refs))
     changed = True
     while changed:
@@ -719,7 +716,7 @@ def rule_algorithms(ctx):
                         "silently selects %s for any name outside %s" % (short(ln_fallback[0]), sorted(ln_map)))
     stale = [s for s in exempt if s not in {_fname(f[0]) for f in fwd_info}]
     if stale:
-        raise AnalysisBroken("tab.json unchecked_forwarders lists functions that no longer call set_algorithm: %s" % stale)
+        ctx.note("R-TAB T1: stale table entries (functions that no longer call set_algorithm): %s" % stale)
 
     # sites: name -> enumerator selectors (gama-g3)
     for fn, d in enum_selectors:
@@ -893,7 +890,6 @@ def _enum_printer(fn):
     cmps = _enum_compares(fn, ALG_ENUM)
     if not cmps:
         return None
-    blocks = {c[0] for c in cmps}
     m = {}
     for bid, e, eq, neq, n in cmps:
         reg = dom_region(fn.cfg, eq, {c[0] for c in cmps if c[2] == eq})
@@ -1045,7 +1041,7 @@ def rule_rm_points(ctx):
     names = [e[0] for e in ens]
     by_value = {v: k for k, v in ens}
     fx.fn(RM_FN)
-    ctx.floor(TAB, 6, len(ens), "rm_points enumerators")
+    ctx.floor(TAB, 8, len(ens), "rm_points enumerators")
 
     # ---- consumers: reason tables
     tables = {}     # fname -> list of per-instantiation results {enumerator: (ok, msg)}
@@ -1178,7 +1174,7 @@ def rule_rm_points(ctx):
                         % (ks, ", ".join(sorted(codes))))
             else:
                 ctx.ok(TAB, key, lst[0][0].where(lst[0][1]), fname, detail={"kind": ks})
-    ctx.floor(TAB, 6, n_calls, "removed(id, code) call sites")
+    ctx.floor(TAB, 8, n_calls, "removed(id, code) call sites")
     return tables, prod
 
 
@@ -1187,7 +1183,7 @@ def _array_init(fx, fn, base):
     if base is None or base.get("k") != "DeclRefExpr":
         return None
     r = base["ref"]
-    if r.get("dk") == "local":
+    if r.get("dk") in ("local", "staticlocal"):
         for n in fn.walk():
             if n.get("k") == "DeclStmt":
                 for d in n.get("decls", []):
@@ -1424,7 +1420,7 @@ def rule_g3_visitors(ctx):
             if o in visited:
                 ctx.ok(VIS, key, where, vname)
                 if oname in ex:
-                    raise AnalysisBroken("tab.json g3_visitors.exempt lists %s for %s, which the visitor now handles" % (oname, vname))
+                    ctx.note("R-VIS V2: stale exemption: %s now handles %s" % (vname, oname))
             elif oname in ex:
                 used_ex.add((vname, oname))
                 ctx.ok(VIS, key, where, vname, detail={"exempt": ex[oname]})
@@ -1434,7 +1430,7 @@ def rule_g3_visitors(ctx):
     for vname in exempt:
         if vname not in {"%s[%s]" % (short(q).replace("(anonymous namespace)::", "(anon)::"),
                                       os.path.basename(r.get("file", ""))) for q, r, _ in visitors}:
-            raise AnalysisBroken("tab.json g3_visitors.exempt names a visitor that no longer exists: %s" % vname)
+            ctx.note("R-VIS V2: stale exemption: visitor %s no longer exists" % vname)
     return visitors, obs
 
 
@@ -1476,7 +1472,7 @@ def rule_cluster_casts(ctx):
             if s in casts:
                 ctx.ok(VIS, key, fn.where(casts[s]), fname)
                 if sname in ex:
-                    raise AnalysisBroken("tab.json cluster_casts.exempt lists %s for %s, which is now handled" % (sname, fname))
+                    ctx.note("R-VIS V3: stale exemption: %s now handles %s" % (fname, sname))
             elif sname in ex:
                 ctx.ok(VIS, key, fn.where(), fname, detail={"exempt": ex[sname]})
             else:
